@@ -1208,6 +1208,11 @@ namespace awkward {
 
   const ContentPtr
   NumpyArray::getitem_at(int64_t at) const {
+    if (isscalar()) {
+      throw std::invalid_argument(
+        std::string("cannot get an item of a zero-dimensional NumpyArray")
+        + FILENAME(__LINE__));
+    }
     int64_t regular_at = at;
     if (regular_at < 0) {
       regular_at += shape_[0];
@@ -1223,6 +1228,13 @@ namespace awkward {
 
   const ContentPtr
   NumpyArray::getitem_at_nowrap(int64_t at) const {
+    if (isscalar()) {
+      // reachable from printing/converting an invalid layout (a scalar where an
+      // array is expected): fail instead of reading strides_[0] of an empty vector
+      throw std::invalid_argument(
+        std::string("cannot get an item of a zero-dimensional NumpyArray")
+        + FILENAME(__LINE__));
+    }
     ssize_t byteoffset = byteoffset_ + strides_[0]*((ssize_t)at);
     const std::vector<ssize_t> shape(std::next(shape_.begin()), shape_.end());
     const std::vector<ssize_t> strides(std::next(strides_.begin()), strides_.end());
